@@ -44,6 +44,11 @@ def zsig(e, depth=0):
     if k == 'binop':
         return '(%s %s %s)' % (zsig(e[2], depth + 1), e[1].replace('WithOverflow', ''), zsig(e[3], depth + 1))
     if k == 'field':
+        base = strip(e[1])
+        if base[0] == 'aggr' and len(base) > 3 and base[3] and e[2] in base[3] and len(base[3]) == len(base[2]):
+            return zsig(base[2][list(base[3]).index(e[2])], depth + 1)     # `TimeOffset { name, offset }.offset`
+        if e[1][0] == 'downcast' and e[1][2] in ('Some', 'Ok') and e[2].lstrip('#') == '0' and strip(e[1][1])[0] == 'call' and 'tools::get_' in strip(e[1][1])[1]:
+            return zsig(e[1][1], depth + 1)          # the payload of a typed getter: same as get_x(..).unwrap()
         b = zsig(e[1], depth + 1)
         if e[1][0] == 'binop' and e[1][1].endswith('WithOverflow'):
             return b
@@ -74,7 +79,7 @@ def z1_protocol(ctx):
     if len(toks) != 1:
         raise AnchorLost('time_regex_parser: expected one TokenType::Time construction, found %d' % len(toks))
     sg = zsig(b.expr(toks[0]['ops'][0]))
-    m = re.fullmatch(r'naive_utc\(from_utc_datetime\[Utc\]\((?:.*?, )?naive_utc\(and_hms\(ymd\[FixedOffset\]\(east\(\(TimeOffset\{config\.timezone, config\.timezone_offset\}\.offset Mul 60\)\), .*\), (.*)\)\)\)\)', sg)
+    m = re.fullmatch(r'naive_utc\(from_utc_datetime\[Utc\]\((?:.*?, )?naive_utc\(and_hms\(ymd\[FixedOffset\]\(east\(\((?:TimeOffset\{config\.timezone, config\.timezone_offset\}\.offset|config\.timezone_offset) Mul 60\)\), .*\), (.*)\)\)\)\)', sg)
     if m:
         ctx.ok('Z1', 'time literal: instant = naive_utc of the wall time anchored in east(default offset * 60)', 'chain', site=toks[0]['loc'])
     else:
@@ -97,12 +102,15 @@ def z1_protocol(ctx):
     wall = r'naive_local\(from_utc_datetime\[FixedOffset\]\(%s, get_time\(\'time\', fields\)\.0\)\)' % cur
     via_local = r'naive_local\(from_local_datetime\[Local\]\((?:[^,]*, )?%s\)\)' % wall
     want = r'naive_utc\(from_utc_datetime\[Utc\]\((?:[^,]*, )?naive_utc\(from_local_datetime\[FixedOffset\]\(%s, (?:%s|%s)\)\)\)\)' % (tgt, via_local, wall)
-    if re.fullmatch(want, sg):
+    # `Utc.from_utc_datetime(&x.naive_utc()).naive_utc()` is `x.naive_utc()`: with or without that identity round trip
+    want_short = r'naive_utc\(from_local_datetime\[FixedOffset\]\(%s, (?:%s|%s)\)\)' % (tgt, via_local, wall)
+    if re.fullmatch(want, sg) or re.fullmatch(want_short, sg):
         ctx.ok('Z1', 'time + zone: wall time read in the current zone, anchored in east(target*60), stored as UTC', 'chain', site=b.loc)
     else:
         ctx.finding('Z1', 'time_with_timezone/chain', "'H:MM ZONE' stores %s; expected naive_utc(east(target*60).from_local_datetime(naive_local(east(current*60).from_utc_datetime(time))))" % sg[:300], site=b.loc)
     zr = render(inner[2][1])
-    zwant = r'types::TimeOffset::TimeOffset\{str::to_uppercase\(Option::unwrap\(tools::get_timezone\("timezone", fields\)\)\.#?0\), Option::unwrap\(tools::get_timezone\("timezone", fields\)\)\.#?1\}'
+    ZSRC = r'(?:Option::unwrap\(tools::get_timezone\("timezone", fields\)\)|tools::get_timezone\("timezone", fields\) as Some\.0)'
+    zwant = r'types::TimeOffset::TimeOffset\{str::to_uppercase\(%s\.#?0\), %s\.#?1\}' % (ZSRC, ZSRC)
     if re.fullmatch(zwant, zr):
         ctx.ok('Z1', 'time + zone: display zone = the named zone and its offset', 'wiring', site=b.loc)
     else:
